@@ -4,7 +4,7 @@
 id=$1; wt=/tmp/wt/$id; sd=/tmp/seeds/$id
 cd $wt || exit 2
 export CARGO_NET_OFFLINE=true CARGO_TARGET_DIR=$wt/target
-git checkout -q -- . ; git clean -fdq -e target
+git reset -q --hard HEAD; git clean -fdq -e target
 demo_cmd=$(python3 -c "import json;print(json.load(open('$sd/meta.json'))['demo_cmd'].replace('WORKTREE','$wt'))")
 git apply $sd/patch.diff || { echo "patch does not apply"; exit 2; }
 cargo test --workspace --no-fail-fast --offline > $sd/confirm_tests_with_patch.log 2>&1; t_rc=$?
@@ -14,7 +14,7 @@ git apply $sd/demo.diff || { echo "demo does not apply"; exit 2; }
 bash -c "$demo_cmd" > $sd/confirm_demo_with_patch.log 2>&1; d1=$?
 git apply -R $sd/patch.diff
 bash -c "$demo_cmd" > $sd/confirm_demo_without_patch.log 2>&1; d2=$?
-git checkout -q -- . ; git clean -fdq -e target
+git reset -q --hard HEAD; git clean -fdq -e target
 python3 - <<PY
 import json
 json.dump({"tests_with_patch": {"exit": $t_rc, "passed": int("${passed:-0}"), "failed": int("${failed:-0}")}, "demo_with_patch_exit": $d1, "demo_without_patch_exit": $d2,
